@@ -25,6 +25,19 @@ RULE = ("every boolean mask of every shape with H*W <= N (see exhaustive_subspac
         "re-used and edited in place); every read must equal the model on the CURRENT contents of that object and show those contents. "
         "Families: one view read -> edit -> re-read all (every view x fresh/held x edit route); copy then edit copy / original; derived objects; "
         "two edits restoring the number of unmasked pixels; all small masks x every cell flipped; random programs. "
+        "INPUT KINDS / SIBLINGS / ARGUMENTS (kinds_inputs and history family H): the mask is given as int / float / float32 / uint8 / int8 / complex / "
+        "Fortran-ordered / non-contiguous view / read-only / ndarray-subclass arrays, arrays of arbitrary truthy values (negative, 1e-300, inf), "
+        "lists of ints, lists of numpy rows, a Mask2D, an instance of a user subclass of Mask2D, and through the classmethods all_false / "
+        "from_pixel_coordinates / circular / from_primary_hdu(hdu_for_output); the util functions get twin arrays of every numeric kind; the kernel "
+        "shape is a tuple / list / ndarray / numpy-integer tuple / Kernel2D.shape_native, held and re-used; pixel scales / origin are a scalar / int tuple / "
+        "list / ndarray, scaled by 2^-40 .. 2^40 (coordinates descaled exactly, C10_grid_views_scale); sibling routes: DeriveIndexes2D / DeriveMask2D / "
+        "DeriveGrid2D constructed directly (keyword and positional), DeriveMask2D.derive_indexes, BorderRelocator.border_grid and sub_border_slim "
+        "(sub_size 1), Convolver(mask, kernel).blurring_mask, Grid2D.blurring_grid_via_kernel_shape_from (on Grid2D.from_mask and on "
+        "derive_grid.unmasked), blurring_grid_from(over_sampling=...); every such case is evaluated TWICE on the same objects and every argument "
+        "object (mask array incl. the base of a view, kernel, pixel scales, origin, over_sampling) is fingerprinted before and after; the Mask2D must "
+        "keep contents, pixel scales and origin.  DIRECTED rare states: border walks with one gap at every distance in every direction (7x9 / 9x7), "
+        "masks with more than 127 / 255 unmasked pixels (one-byte index buffers), blurring masks that fit on every side / are one short on exactly "
+        "one side (top, bottom, left, right separately) with kernels up to 9, annuli through every sibling route. "
         "Non-trivial = the mask has at least one unmasked pixel; distinct = distinct JSON input.")
 EXHAUSTIVE = {
     "quick": "util edge/border/buffed: all masks of all shapes with H*W <= 10 and all 3x4 / 4x3 masks (15 498 masks, "
@@ -41,7 +54,12 @@ TRUSTED = ["correspondence harness harness/c10.py (mask/array printing; grid coo
            "numpy semantics modelled in Model/C10.v Part 1: a[y,x] reads/writes with negative-index wrap, np.full, np.sum of a "
            "boolean slice, fancy indexing a[idx] and mask[ys,xs] = False",
            "histories: the harness's interpreter of history programs (run_hist): it applies each edit to the Mask2D and to the twin ndarray, "
-           "and prints as the mask field of every read what np.array(obj) shows at that moment"]
+           "and prints as the mask field of every read what np.array(obj) shows at that moment",
+           "geometry scaled by 2^e with e < 0: multiplying every pixel scale / origin by a power of two commutes exactly with the binary floating-point "
+           "arithmetic of the coordinate formulas (no underflow at 2^-40), so the descaled coordinates are compared with the integer model "
+           "(for integer factors this is theorem C10_grid_views_scale)",
+           "input kinds: the harness's own conversion of the contents to each array kind (mk_array) and np.ndarray.astype('bool') semantics "
+           "(non-zero = masked)"]
 ASSUMPTIONS = ["native_index_for_slim_index_2d_from and grid_2d_slim_via_mask_from are modelled as append / map over the "
                "row-major scan (their preallocate-and-write form belongs to C01 / C02); the correspondence run exercises them",
                "pixel scales and origins of the grid views are small integers so that doubled coordinates are exact integers",
